@@ -40,7 +40,61 @@ func fillOrders(u int) []fillOrder {
 			}
 		}
 	}
-	return []fillOrder{{"ascending", asc}, {"descending", desc}, {"zig-zag", zig}, {"inside-out", inside}}
+	orders := []fillOrder{{"ascending", asc}, {"descending", desc}, {"zig-zag", zig}, {"inside-out", inside}}
+	// fixed "random-looking" permutations (shapes no monotone order produces): two stride
+	// permutations k_i = (off + i*s) mod u with s coprime to u near 0.618 u and 0.382 u, and the
+	// bit-reversal order (the insertion order of a perfectly balanced search tree, level by level mixed)
+	if u >= 8 {
+		orders = append(orders, fillOrder{"stride-golden", strideOrder(u, coprimeNear(u, u*618/1000), 0)},
+			fillOrder{"stride-minor", strideOrder(u, coprimeNear(u, u*382/1000), u/3)},
+			fillOrder{"bit-reversal", bitReversalOrder(u)})
+	}
+	return orders
+}
+
+func gcd(a, b int) int {
+	for b != 0 {
+		a, b = b, a%b
+	}
+	return a
+}
+
+func coprimeNear(u, s int) int {
+	if s < 2 {
+		s = 2
+	}
+	for gcd(u, s) != 1 {
+		s++
+	}
+	return s
+}
+
+func strideOrder(u, s, off int) []int {
+	o := make([]int, u)
+	for i := range o {
+		o[i] = (off + i*s) % u
+	}
+	return o
+}
+
+func bitReversalOrder(u int) []int {
+	bits := 0
+	for 1<<bits < u {
+		bits++
+	}
+	var o []int
+	for i := 0; i < 1<<bits; i++ {
+		r := 0
+		for b := 0; b < bits; b++ {
+			if i&(1<<b) != 0 {
+				r |= 1 << (bits - 1 - b)
+			}
+		}
+		if r < u {
+			o = append(o, r)
+		}
+	}
+	return o
 }
 
 func familyJob(j Job, r *JobResult) {
@@ -177,7 +231,7 @@ func familyJob(j Job, r *JobResult) {
 		}
 		r.St.Nested["history_families"]++
 	}
-	r.St.Samples = []any{map[string]any{"system": sys.Name(), "check": check, "family": "every prefix (sizes 0..N) of the fill orders {ascending, descending, zig-zag, inside-out}, plus every second key removed again at sizes 8, 12, ..", "N": u}}
+	r.St.Samples = []any{map[string]any{"system": sys.Name(), "check": check, "family": "every prefix (sizes 0..N) of the fill orders {ascending, descending, zig-zag, inside-out, stride-golden, stride-minor, bit-reversal}, plus every second key removed again at sizes 8, 12, ..", "N": u}}
 }
 
 func init() { jobKinds["family"] = familyJob }
@@ -283,6 +337,28 @@ func churnJob(j Job, r *JobResult) {
 			if run(p, fmt.Sprintf("%d keys inserted %s, deleted %s", u, f.name, d.name)) {
 				return
 			}
+			{
+				// sawtooth: while filling, every third Put is followed by the removal of the key put two steps
+				// earlier; the removed keys are re-inserted (same places) after the fill; then all deleted
+				var q []Op
+				var gone []int
+				for i, k := range f.keys {
+					q = append(q, put(k))
+					if i%3 == 2 {
+						q = append(q, del(f.keys[i-2]))
+						gone = append(gone, f.keys[i-2])
+					}
+				}
+				for _, k := range gone {
+					q = append(q, put(k))
+				}
+				for _, k := range d.keys {
+					q = append(q, del(k))
+				}
+				if run(q, fmt.Sprintf("%d keys inserted %s with a Remove after every third Put, removed keys re-inserted, all deleted %s", u, f.name, d.name)) {
+					return
+				}
+			}
 			for _, re := range fills[:2] {
 				q := append([]Op{}, half...)
 				gone := map[int]bool{}
@@ -342,7 +418,7 @@ func churnJob(j Job, r *JobResult) {
 			}
 		}
 	}
-	r.St.Samples = []any{map[string]any{"system": sys.Name(), "family": "fill in {ascending, descending, zig-zag, inside-out} x delete in those four or every-second-first; and with half deleted, re-inserted ascending / descending, all deleted; bidirectional maps: at every point of every drain one colliding Put (three kinds) and a Remove", "keys": u}}
+	r.St.Samples = []any{map[string]any{"system": sys.Name(), "family": "fill in {ascending, descending, zig-zag, inside-out, stride-golden, stride-minor, bit-reversal} x delete in those seven or every-second-first; and with half deleted, re-inserted ascending / descending, all deleted; sawtooth fills (a Remove after every third Put, re-inserted later); bidirectional maps: at every point of every drain one colliding Put (three kinds) and a Remove", "keys": u}}
 }
 
 func init() { jobKinds["churn"] = churnJob }
@@ -419,6 +495,22 @@ func heapChurnJob(j Job, r *JobResult) {
 			}
 			hist = append(hist, p)
 			names = append(names, fmt.Sprintf("%d distinct priorities pushed %s by %s, then drained", u, f.name, mode))
+			if mode == "single pushes" {
+				// sawtooth: after every second push one pop (the heap is reshaped by sift-downs while it grows),
+				// then drained
+				var st []Op
+				for i, k := range f.keys {
+					st = append(st, op("push", k))
+					if i%2 == 1 {
+						st = append(st, op("pop"))
+					}
+				}
+				for i := 0; i < u-u/2; i++ {
+					st = append(st, op("peek"), op("pop"))
+				}
+				hist = append(hist, st)
+				names = append(names, fmt.Sprintf("%d distinct priorities pushed %s, one Pop after every second Push, then drained", u, f.name))
+			}
 			for _, back := range []string{"ascending", "descending"} {
 				q := append([]Op{}, fill...)
 				for i := 0; i < u/2; i++ {
@@ -455,7 +547,7 @@ func heapChurnJob(j Job, r *JobResult) {
 			return
 		}
 	}
-	r.St.Samples = []any{map[string]any{"system": sys.Name(), "family": "fill in {ascending, descending, zig-zag, inside-out} by single pushes / bulk pushes of three, drain; and half popped, pushed back ascending / descending, drained", "priorities": u}}
+	r.St.Samples = []any{map[string]any{"system": sys.Name(), "family": "fill in {ascending, descending, zig-zag, inside-out, stride-golden, stride-minor, bit-reversal} by single pushes / bulk pushes of three, drain; sawtooth (a Pop after every second Push), drain; and half popped, pushed back ascending / descending, drained", "priorities": u}}
 }
 
 func init() { jobKinds["heapchurn"] = heapChurnJob }
